@@ -13,7 +13,8 @@ ShapesOf(i) == IF i = 5 THEN {"absent", "file", "dir+a"} ELSE Shapes
 Trees == {t \in [1..Len(TopNames) -> Shapes] : \A i \in 1..Len(TopNames) : t[i] \in ShapesOf(i)}
 Comps == << <<"a">>, <<"*">>, <<"?">>, <<"a", "*">>, <<".", "*">>, <<"[", "a", "b", "]", "*">>, <<"\\", "a">>, <<"a", "?">>,
             <<"b", "\\", "*">>, <<"*", "b">>, <<"?", "?">>, <<"a", "\\", "\\">>,
-            <<"\\", "a", "*">>, <<"\\", ".", "*">> >>      \* an escaped ordinary character / period followed by a wildcard
+            <<"\\", "a", "*">>, <<"\\", ".", "*">>,
+            <<"a", "\\">> >>      \* an escaped ordinary character / period followed by a wildcard; a trailing backslash (stands for itself)
 
 CONSTANT Sel               \* the indices of the trees to emit (the quick tier samples)
 ShapeSeq == <<"absent", "file", "dir", "dir+a", "dir+.c", "link">>
@@ -43,8 +44,16 @@ Pats == {[comps |-> <<Comps[i]>>, slash |-> s, abs |-> FALSE, rep |-> 1] : i \in
                                                                                    a \in BOOLEAN, r \in {1, 2}}
         \cup {[comps |-> <<Comps[i]>>, slash |-> s, abs |-> TRUE, rep |-> r] : i \in 1..Len(Comps), s \in BOOLEAN, r \in {1, 2}}
 
+\* a component that ends in an unescaped backslash can only be the end of the pattern (before a slash it would escape the slash)
+TrailBS == <<"a", "\\">>
+Usable(pt) == \A i \in 1..Len(pt.comps) : pt.comps[i] = TrailBS => (i = Len(pt.comps) /\ ~pt.slash)
+
+\* POSIX leaves a trailing backslash open: it stands for itself, or it is dropped
+DropBS(pt) == [pt EXCEPT !.comps = [i \in 1..Len(pt.comps) |-> IF pt.comps[i] = TrailBS THEN <<"a">> ELSE pt.comps[i]]]
+
 Emit == ~done \/ PrintT(<<"CASE", ToJson([tree |-> tree, index |-> TreeIndex(tree),
                                  entries |-> SetToSeq({[path |-> p, kind |-> FS[p]] : p \in DOMAIN FS}),
                                  pats |-> SetToSeq({[comps |-> pt.comps, slash |-> pt.slash, abs |-> pt.abs, rep |-> pt.rep, exp |-> SetToSeq(Expected(FS, pt)),
-                                                     expstr |-> SetToSeq(ExpectedStrings(FS, pt))] : pt \in Pats})])>>)
+                                                     expstr |-> SetToSeq(ExpectedStrings(FS, pt)),
+                                                     exp2 |-> SetToSeq(Expected(FS, DropBS(pt))), expstr2 |-> SetToSeq(ExpectedStrings(FS, DropBS(pt)))] : pt \in {q \in Pats : Usable(q)}})])>>)
 =============================================================================
